@@ -33,6 +33,8 @@ use crate::version::Version;
 use mio::net::{TcpListener, UdpSocket};
 use mio::{Events, Poll, PollOpt, Ready, Token};
 use mio_extras::timer::Timer;
+use net2::unix::UnixTcpBuilderExt;
+use net2::TcpBuilder;
 use rand::{thread_rng, RngCore};
 
 // mio event registrations
@@ -102,7 +104,9 @@ impl Server {
                 .parse()
                 .unwrap();
 
-            let tcp_listener = TcpListener::bind(&hc_sock_addr)
+            // Every worker listens on the health check port: like the UDP sockets, the
+            // listeners share the port using SO_REUSEADDR and SO_REUSEPORT
+            let tcp_listener = Self::bind_health_check_listener(&hc_sock_addr)
                 .expect("failed to bind TCP listener for health check");
 
             poll.register(
@@ -156,6 +160,20 @@ impl Server {
             #[cfg(feature = "fuzzing")]
             fake_client_socket: UdpSocket::bind(&"127.0.0.1:0".parse().unwrap()).unwrap(),
         }
+    }
+
+    fn bind_health_check_listener(addr: &SocketAddr) -> std::io::Result<TcpListener> {
+        let builder = match addr {
+            SocketAddr::V4(_) => TcpBuilder::new_v4()?,
+            SocketAddr::V6(_) => TcpBuilder::new_v6()?,
+        };
+        let std_listener = builder
+            .reuse_address(true)?
+            .reuse_port(true)?
+            .bind(addr)?
+            .listen(1024)?;
+
+        TcpListener::from_std(std_listener)
     }
 
     /// Returns a reference to the server's long-term public key
